@@ -26,7 +26,6 @@ import (
 	"io"
 	"net"
 	"net/http"
-	"net/http/httputil"
 	"net/url"
 	"sync"
 	"syscall"
@@ -968,18 +967,14 @@ func (s *Stream) upgrade(uri *url.URL, stream sonic.Stream, headers []Header) er
 			return err
 		}
 	}
-	rd := bytes.NewReader(s.handshakeBuffer)
+	// The response ends with its blank line; whatever follows are frames.
+	resLen := headerEnd(s.handshakeBuffer)
+	rd := bytes.NewReader(s.handshakeBuffer[:resLen])
 	res, err := http.ReadResponse(bufio.NewReader(rd), req)
 	if err != nil {
 		return err
 	}
 
-	rawRes, err := httputil.DumpResponse(res, true)
-	if err != nil {
-		return err
-	}
-
-	resLen := len(rawRes)
 	extra := len(s.handshakeBuffer) - resLen
 	if extra > 0 {
 		// we got some frames as well with the handshake so we can put
